@@ -129,7 +129,20 @@ def handleDrain {α} [ToString α] (T : Ty α) (op : String) (args : List String
     | _ => none
   | _, _ => none
 
+/-- `range.fr <ty> <a> <b>`: the values `konst::for_range!` binds (integer types only) -/
+def handleForRange (args : List String) : Option (String × String) := do
+  match args with
+  | [ty, a, b] =>
+    let _ ← intBounds ty
+    let a ← parseInt a
+    let b ← parseInt b
+    let fuel := (b - a).toNat + 2
+    let show_ := fun (l : List Int) => showList (l.map toString)
+    some (show_ (Konst.Range.forRange a b fuel), show_ (Konst.Spec.Range.rangeList a b))
+  | _ => none
+
 def handle (op : String) (args : List String) : Option (String × String) :=
+  if op = "range.fr" then handleForRange args else
   match args with
   | ty :: rest =>
     let go {α} [ToString α] (T : Ty α) : Option (String × String) :=
